@@ -8,6 +8,11 @@ GenOK == WellFormed(d)
 (* the invariants of Gate_MC on the claimed part of the space, so that one run can do both *)
 GenTypeOK == d.viol \notin UnclaimedNames => TypeOK
 GenWalkAgrees == d.viol \notin UnclaimedNames => WalkAgrees
+GenCmdAgrees == d.viol \notin UnclaimedNames => CmdAgrees
+(* the environment dimension of the command cases: EnvCases = { [sub, dec, at] : EnvWellFormed }, i.e. the CASE
+   descriptors paired with their twin (either role) times Ats; the pairs are formed by the driver from the CASE lines
+   and Ats, and Gate_Trace reports every pair that is not EnvWellFormed as FOREIGN *)
+ASSUME PrintT(<<"ENVATS", ToJson(Ats)>>)
 Emit == PrintT(<<"CASE", ToJson(d)>>)
 ASSUME PrintT(<<"VIOLNAMES", ToJson(ViolNames \cup UnclaimedNames)>>)
 =============================================================================
